@@ -26,7 +26,7 @@ package ice
 //@   props C03 C04 C06
 //@   requires C04 selection-only-while-alive: pair == nil || a.connectionState != ConnectionStateFailed
 //@   site call updateConnectionState#1 assert C04 connected-is-never-entered-from-failed: a.connectionState != ConnectionStateFailed
-//@   requires C03 only-valid-pairs: pair == nil || a.userBindingRequestHandler != nil || pair.state == pairSucceeded
+//@   requires C03 C07 only-valid-pairs: pair == nil || pair.state == pairSucceeded
 //@   site store nominated#1 assert C03 marks-nominated: value == true && object == pair
 //@   site call updateConnectionState#1 assert C04 selection-reports-connected: arg1 == ConnectionStateConnected && pair != nil && a.getSelectedPair() == pair
 //@   ensures C03 C04 stored: a.getSelectedPair() == pair
